@@ -106,7 +106,7 @@ def sig(c):
 def run(ctx):
     quick = ctx.tier == 'quick'
     rnd = random.Random(ctx.seed)
-    text_ids = list(range(1, 20))
+    text_ids = list(range(1, 22))
     chains = ['none', 'identity', 'lower', 'filter', 'run', 'replace', 'seq', 'filter-lower', 'run-identity']
     mems = ['1', 'len', 'len+1', 'default'] if quick else ['1', 'len', 'len+1', 'len-1', 'default']
     max_obs = 2 if quick else 3
